@@ -25,19 +25,32 @@ theorem not_U2err_of_clean {e : Err} (h : e.Clean) : ¬ U2err e := by
 theorem not_U2err_panic {s : String} (h : ¬ U2 s) : ¬ U2err (.panic s) := h
 theorem not_U2err_internal {s : String} (h : ¬ U2 s) : ¬ U2err (.internal s) := h
 
-/-- sink laws for the re-lexing argument -/
-structure XLaws (ops : SinkOps κ) (inp : Bytes) (Pend : κ → Bool) (Good : κ → Prop) : Prop where
-  hint : PendLaw ops Pend
+/-- the site of a *guard* a client may put in front of `handle_tag` (see `Thm/C06_EndTag.lean`) -/
+def guardSite : String := "guard: tag lexeme of the wrong kind while a hint is pending"
+
+/-- the errors the walks have to exclude explicitly for the parser's own failures: the `U2` sites and
+the client's guard -/
+def U3err (e : Err) : Prop := U2err e ∨ e = .panic guardSite
+
+/-- sink laws for the re-lexing argument, for a flag `Pend` that only a hint of kind `K` (`true`: start
+tag) can raise and the next tag lexeme lowers, and a class `Uerr ⊆ U3err` of errors the sink reports
+only when a lexeme of the other kind arrives while `Pend` is up -/
+structure XLaws (ops : SinkOps κ) (inp : Bytes) (Pend : κ → Bool) (Good : κ → Prop) (K : Bool) (Uerr : Err → Prop) : Prop where
+  hint : PendLaw ops Pend K
+  sub : ∀ e, Uerr e → U3err e
   goodNT : ∀ lx k, Good k → Good (ops.handleNonTag inp lx k).1
-  goodT : ∀ lx k, Good k → Good (ops.handleTag inp lx k).1
+  goodT : ∀ lx k, Good k → (Pend k = true → lx.outline.isStart = K) → Good (ops.handleTag inp lx k).1
   goodS : ∀ n ns k, Good k → Pend k = false → Good (ops.startTagHint n ns k).1
   goodE : ∀ n k, Good k → Pend k = false → Good (ops.endTagHint n k).1
   pendNT : ∀ lx k, Pend (ops.handleNonTag inp lx k).1 = Pend k
   pendT : ∀ lx k d, Good k → (ops.handleTag inp lx k).2 = .ok d → Pend (ops.handleTag inp lx k).1 = false
-  errNT : ∀ lx k e, (ops.handleNonTag inp lx k).2 = .error e → ¬ U2err e
-  errT : ∀ lx k e, (ops.handleTag inp lx k).2 = .error e → U2err e → Pend k = true ∧ lx.outline.isStart = false
-  errS : ∀ n ns k e, (ops.startTagHint n ns k).2 = .error e → ¬ U2err e
-  errE : ∀ n k e, (ops.endTagHint n k).2 = .error e → ¬ U2err e
+  errNT : ∀ lx k e, (ops.handleNonTag inp lx k).2 = .error e → ¬ Uerr e
+  errT : ∀ lx k e, (ops.handleTag inp lx k).2 = .error e → Uerr e → Pend k = true ∧ lx.outline.isStart = !K
+  errS : ∀ n ns k e, (ops.startTagHint n ns k).2 = .error e → ¬ Uerr e
+  errE : ∀ n k e, (ops.endTagHint n k).2 = .error e → ¬ Uerr e
+
+theorem XLaws.noU {ops : SinkOps κ} {inp : Bytes} {Pend : κ → Bool} {Good : κ → Prop} {K : Bool} {Uerr : Err → Prop}
+    (h : XLaws ops inp Pend Good K Uerr) {e : Err} (he : ¬ U3err e) : ¬ Uerr e := fun hu => he (h.sub e hu)
 
 /-! ### the dispatcher -/
 
@@ -383,7 +396,8 @@ theorem endTagHint_noU2 (name : LocalName) (d : Disp γ) : DErr NoU2 (Disp.endTa
   exact DErr.ok _ _
 
 /-- **the dispatcher satisfies the sink laws** -/
-theorem dispOps_xlaws : XLaws (dispOps ctl) inp (fun d : Disp γ => d.pendingAux) Disp.Good where
+theorem dispOps_xlaws : XLaws (dispOps ctl) inp (fun d : Disp γ => d.pendingAux) Disp.Good true U2err where
+  sub := fun _ h => Or.inl h
   hint := {
     start := by
       intro n ns k hp hr
@@ -397,21 +411,31 @@ theorem dispOps_xlaws : XLaws (dispOps ctl) inp (fun d : Disp γ => d.pendingAux
       · simp at hr
       · simp at hr
     end_ := by
-      intro n k hp
+      intro n k hp _
       simp only [dispOps]
       unfold Disp.endTagHint
       have h0 := flushPendingText_pg (ctl := ctl) k
       simp only [Disp.pg, Prod.mk.injEq] at h0
       cases hfl : (k.flushPendingText ctl).2 with
       | error e => rw [DRes.bind_err_eq hfl]; simp only; rw [h0.1]; exact hp
-      | ok u => rw [DRes.bind_ok_eq hfl]; simp only [Disp.applyHintFlags]; rw [h0.1]; exact hp }
+      | ok u => rw [DRes.bind_ok_eq hfl]; simp only [Disp.applyHintFlags]; rw [h0.1]; exact hp
+    otherE := by
+      intro _ n k hp
+      simp only [dispOps]
+      unfold Disp.endTagHint
+      have h0 := flushPendingText_pg (ctl := ctl) k
+      simp only [Disp.pg, Prod.mk.injEq] at h0
+      cases hfl : (k.flushPendingText ctl).2 with
+      | error e => rw [DRes.bind_err_eq hfl]; simp only; rw [h0.1]; exact hp
+      | ok u => rw [DRes.bind_ok_eq hfl]; simp only [Disp.applyHintFlags]; rw [h0.1]; exact hp
+    otherS := fun h => by cases h }
   goodNT := by
     intro lx k hg
     have := handleNonTag_pg (ctl := ctl) (inp := inp) lx k
     simp only [Disp.pg, Prod.mk.injEq] at this
     simp only [dispOps, Disp.Good, this.1, this.2]; exact hg
   goodT := by
-    intro lx k hg
+    intro lx k hg _
     simp only [dispOps]
     rcases handleTag_flags (ctl := ctl) (inp := inp) lx k hg with h | ⟨h, _⟩
     · intro hh; rw [h.2] at hh; cases hh
